@@ -20,12 +20,15 @@ SAMPLE_RATE = {"quick": 0.05, "thorough": 0.005}
 CHUNK = 48
 STUBS = ["asyncio.open_connection -> FakeNet", "StreamReader -> SegmentedReader (readexactly contract over symbolic cut offsets); concrete replay uses the real asyncio.StreamReader",
          "loop -> VLoop"]
-OUTSIDE = ["more than three cuts", "frame content is concrete (catalogue frames); symbolic content is C03/C05/C17"]
+OUTSIDE = ["more cuts than the bound (quick 3; thorough up to 6)", "frame content is concrete (catalogue frames); symbolic content is C03/C05/C17"]
 ASSUMPTIONS = []
 
 
 def bounds(tier):
-    return {"cuts": 3, "frames": [1, 2, 3], "catalogue_entries": "all 18 per generation rotate as first frame"}
+    if tier == "quick":
+        return {"cuts": 3, "frames": [1, 2, 3], "catalogue_entries": "every third of the 18 per generation as first frame"}
+    return {"cuts": "3 (all singles and pairs), 5 (three-frame streams), 6 (two four-frame streams per generation)", "frames": [1, 2, 3, 4],
+            "catalogue_entries": "all 18 per generation as first frame; every ordered pair (c, c+k) for k in 1,5,11"}
 
 
 def instances(tier):
@@ -38,7 +41,13 @@ def instances(tier):
         out.append({"gen": g, "seq": [4, 17, 1]})
         out.append({"gen": g, "seq": [2, 5, 8]})
         if tier == "thorough":
-            out.append({"gen": g, "seq": [11, 13, 16]})
+            for c in range(18):
+                for k in (1, 11):
+                    out.append({"gen": g, "seq": [c, (c + k) % 18]})
+            for seq in ([11, 13, 16], [4, 17, 1], [2, 5, 8], [0, 9, 14], [7, 3, 12], [15, 6, 10]):
+                out.append({"gen": g, "seq": seq, "cuts": 5})
+            out.append({"gen": g, "seq": [4, 17, 1, 8], "cuts": 6})
+            out.append({"gen": g, "seq": [13, 2, 16, 5], "cuts": 6})
     return out
 
 
@@ -62,11 +71,10 @@ def run(ctx, p):
         msgs.append(g.reg.get_decoder(e[2]).decode(bytes(data), hdr).message)
     stream = bytes(b for f in frames for b in f)
     n = len(stream)
-    c1 = ctx.int("c1", 0, n)
-    c2 = ctx.int("c2", 0, n)
-    c3 = ctx.int("c3", 0, n)
-    ctx.assume(c1 <= c2)
-    ctx.assume(c2 <= c3)
+    k_cuts = p.get("cuts", 3)
+    cs = [ctx.int(f"c{i + 1}", 0, n) for i in range(k_cuts)]
+    for a, b in zip(cs, cs[1:]):
+        ctx.assume(a <= b)
     with Rig(ctx, g) as rig:
         readers = []
 
@@ -79,7 +87,7 @@ def run(ctx, p):
 
         def deliver(k):
             r = readers[0]
-            cuts = [c1, c2, c3, n]
+            cuts = cs + [n]
             if ctx.symbolic:
                 r.deliver_up_to(cuts[k])
             else:
@@ -88,9 +96,9 @@ def run(ctx, p):
                     r.feed_data(stream[prev:cuts[k]])
 
         rig.spawn(rig.sock.open_socket())
-        for k in range(4):
+        for k in range(k_cuts + 1):
             rig.loop.vt_call_at(1.0 + k, (lambda k=k: deliver(k)))
-        rig.loop.vt_run(6.5)
+        rig.loop.vt_run(k_cuts + 3.5)
         got = [(h.packet_id, m) for _, h, m in rig.received]
         ctx.observe("delivered", len(got))
         exp = [(40 + i, m) for i, m in enumerate(msgs)]
